@@ -878,27 +878,21 @@ Proof.
   - (* ETake *)
     destruct (s_p s) as [p|] eqn:Ep; [|split; [exact HM|now rewrite Ep]].
     match goal with |- InvM (if ?c then _ else _) => destruct c eqn:Ec end; [|split; [exact HM|now rewrite Ep]].
+    destruct (p_ready p) eqn:Er; [|discriminate].
     destruct (HP p eq_refl) as [PI PH]. split; cbn [s_fs s_frags s_v s_p upd_p upd_fs]; [exact HM|].
-    cbn [exec]. destruct (aget (H_READER r) (p_snaps p)); cbn [snd]; intros p' [= <-].
-    + split; assumption.
-    + split.
-      * apply (PcInv_same_pcs p); [reflexivity|reflexivity|exact PI].
-      * intros Hno. apply (Hd_frame (s_fs s) _ p); try reflexivity. now apply PH.
+    intros p' [= <-]. split.
+    + apply PcInv_spawn; [apply T_READER_not_main|assumption|exact PI].
+    + unfold main_pc. rewrite pc_get_set_other by (intros E; symmetry in E; exact (T_READER_not_main r E)). intros Hno.
+      apply (Hd_frame (s_fs s) _ p); try reflexivity. now apply PH.
   - (* EDrop *)
     destruct (s_p s) as [p|] eqn:Ep; [|split; [exact HM|now rewrite Ep]].
     match goal with |- InvM (if ?c then _ else _) => destruct c eqn:Ec end; [|split; [exact HM|now rewrite Ep]].
     destruct (p_ready p) eqn:Er; [|discriminate].
     destruct (HP p eq_refl) as [PI PH]. split; cbn [s_fs s_frags s_v s_p upd_p upd_fs]; [exact HM|].
-    cbn [exec]. destruct (aget (H_READER r) (p_snaps p)) as [v|]; cbn [snd]; intros p' [= <-].
-    + match goal with |- PcInv (unref_drop ?t ?o ?q) /\ _ => destruct (unref_drop_pcs t o q) as [U1 [[pushed [U2 U3]] [U4 [U5 U6]]]] end.
-      pose proof (T_READER_not_main r) as Hne.
-      assert (Em : forall q, main_pc (unref_drop (T_READER r) v q) = main_pc q).
-      { intros q. destruct (unref_drop_pcs (T_READER r) v q) as [V1 _]. unfold main_pc. apply V1. congruence. }
-      split.
-      * destruct PI as [P1 P2 P3 P4]. split; rewrite ?Em; unfold main_pc in *; cbn [pc_get p_pcs set_handles]; auto.
-        rewrite U6. cbn [p_ready set_handles]. congruence.
-      * rewrite Em. intros Hno. destruct (PH Hno) as [K1 K2]. split; [rewrite U4|rewrite U5]; assumption.
-    + split; assumption.
+    intros p' [= <-]. split.
+    + apply PcInv_spawn; [apply T_READER_not_main|assumption|exact PI].
+    + unfold main_pc. rewrite pc_get_set_other by (intros E; symmetry in E; exact (T_READER_not_main r E)). intros Hno.
+      apply (Hd_frame (s_fs s) _ p); try reflexivity. now apply PH.
   - (* ECrash *)
     split; cbn [s_fs s_frags s_v s_p upd_p]; [exact HM|discriminate].
   - (* EVBegin *)
